@@ -5,11 +5,13 @@ import (
 	"fmt"
 	"os"
 	"os/exec"
+	"sort"
 	"strings"
 	"time"
 
 	lib "github.com/corazawaf/libinjection-go"
 
+	"verif/alpha"
 	"verif/fw"
 	"verif/refhtml"
 	"verif/vrt"
@@ -54,6 +56,43 @@ func c05Ops() []string {
 	}
 	return ops
 }
+
+// c05Extra: operations of the history closure only (not of the pumped / long histories, which grow with the
+// square of the operation count):
+//   - every special byte class inside valid UTF-8 text and as a raw separator (a table "adjusted for this
+//     input" that is really the shared one changes the reading of later inputs);
+//   - NUL-carrying inputs of different lengths (a recycled scratch buffer keeps the tail of the previous input);
+//   - pairs of inputs of EQUAL length that share their first N bytes and differ in verdict, N around the usual
+//     buffer sizes and around every new integer constant of the tree under test (a memo keyed by a prefix or
+//     by a truncated key confuses them).
+func c05Extra() []string {
+	ops := []string{
+		"s:voil\xc3\xa0, d\xc3\xa9j\xc3\xa0 vu", "s:1\xa0UNION\xa0SELECT\xa0password\xa0FROM\xa0users", "s:1'\xa0OR\xa0'1'='1", "s:1\x0bor\x0b1=1", "s:\xce\xa0\xcf\x80 caf\xc3\xa9 \xe2\x82\xac",
+		"s:1\x00union\x00select\x001", "s:a\x00\x00\x00\x00\x00\x00\x00\x00",
+		"x:\x00hello world <script>alert(1)</script>", "x:0123456789" + strings.Repeat("\x00", 24), "x:a" + strings.Repeat("\x00", 8), "x:<a\x00 href=javascript:x>", "x:\x00\x00<a onerror=x>\x00", "x:" + strings.Repeat("\x00", 40),
+		"x:caf\xc3\xa9 \xc2\xa0 <b>", "x:\xc2\xa0<script>",
+	}
+	ns := []int{16, 32, 64, 128, 256, 1024, 4096}
+	for _, n := range alpha.NewInts() {
+		if n >= 8 && n <= 1<<16 {
+			ns = append(ns, n)
+		}
+	}
+	seen := map[int]bool{}
+	for _, n := range ns {
+		if seen[n] {
+			continue
+		}
+		seen[n] = true
+		p := strings.Repeat("quarterly_", n/10+1)[:n]
+		ops = append(ops, "s:"+p+" union select login from accounts", "s:"+p+" sheet 4 revision 12 was approved", "s:"+p+"' or '1'='1' -- aaaaaaaaaaaaaaaaa",
+			"x:"+p+"<script>alert(1)</script>", "x:"+p+" script alert 1 script xx", "x:"+p+"<a href=javascript:alert(1)>")
+	}
+	return ops
+}
+
+// c05HistOps: the operations of the history closure.
+func c05HistOps() []string { return append(c05Ops(), c05Extra()...) }
 
 func runOp(op string) string {
 	if op[0] == 's' {
@@ -194,8 +233,30 @@ func evalHist(w *fw.W, op, aux string) {
 	w.OutcomeStr(histLast)
 }
 
+// byAffinity orders the operations by how likely they are to be confused with op a by a memo, a pool or a
+// scratch buffer: same detector first, then equal length, then the longest common prefix.
+func byAffinity(ops []string, a string) []string {
+	score := func(b string) int {
+		if b[0] != a[0] {
+			return 0
+		}
+		sc := 1
+		if len(a) == len(b) {
+			sc += 100000
+		}
+		n := 0
+		for n < len(a) && n < len(b) && a[n] == b[n] {
+			n++
+		}
+		return sc + n
+	}
+	out := append([]string{}, ops...)
+	sort.SliceStable(out, func(i, j int) bool { return score(out[i]) > score(out[j]) })
+	return out
+}
+
 func runHist(w *fw.W) {
-	ops := c05Ops()
+	ops := c05HistOps()
 	vrt.Restore()
 	histInitDig = vrt.Digest()
 	init := vrt.DigestKey()
@@ -210,21 +271,41 @@ func runHist(w *fw.W) {
 			break
 		}
 		var next []string
-		for _, st := range frontier {
-			path := histStates[st]
-			for _, op := range ops {
-				if w.Expired() {
-					closed = false
-					break
+		// Two passes over the frontier: first, from every state, the few operations most likely to collide with
+		// the call that created the state (same detector, equal length, longest common prefix); then all the
+		// others. The order only matters when the closure does not complete (state explosion on a changed tree).
+		const affine = 6
+		for pass := 0; pass < 2; pass++ {
+			for _, st := range frontier {
+				path := histStates[st]
+				sorted := ops
+				if len(path) > 0 {
+					sorted = byAffinity(ops, path[len(path)-1])
 				}
-				w.Item(op, encodePath(path))
-				if _, seen := histStates[histLast]; !seen {
-					if len(histStates) >= maxStates {
-						closed = false
-						continue
+				sub := sorted
+				if len(path) > 0 {
+					if pass == 0 {
+						sub = sorted[:affine]
+					} else {
+						sub = sorted[affine:]
 					}
-					histStates[histLast] = append(append([]string{}, path...), op)
-					next = append(next, histLast)
+				} else if pass == 1 {
+					continue
+				}
+				for _, op := range sub {
+					if w.Expired() {
+						closed = false
+						break
+					}
+					w.Item(op, encodePath(path))
+					if _, seen := histStates[histLast]; !seen {
+						if len(histStates) >= maxStates {
+							closed = false
+							continue
+						}
+						histStates[histLast] = append(append([]string{}, path...), op)
+						next = append(next, histLast)
+					}
 				}
 			}
 		}
@@ -515,7 +596,7 @@ func init() {
 			}
 			sqlRef()
 			htmlLists()
-			ref, err := freshReference(c05Ops())
+			ref, err := freshReference(c05HistOps())
 			if err != nil {
 				return err
 			}
@@ -529,7 +610,7 @@ func init() {
 			// warm-up in every worker: whatever one pass over all operations changes must be restored
 			// before each explored execution (small variables are always restored)
 			d0 := vrt.Digest()
-			for _, op := range c05Ops() {
+			for _, op := range c05HistOps() {
 				func() {
 					defer func() { recover() }()
 					runOp(op)
@@ -543,7 +624,7 @@ func init() {
 		},
 		Aux: racePass,
 		Phases: []fw.Phase{
-			{Name: "history-closure", Space: "BFS over package states x 85 operations, history depth <=3 (quick) / <=4 (thorough), state cap 400 / 4000", Share: 2, Serial: true,
+			{Name: "history-closure", Space: "BFS over package states x 142 operations (incl. special bytes inside valid UTF-8 and raw, NUL-carrying inputs, equal-length pairs sharing their first N bytes for N around buffer sizes and new constants), history depth <=3 (quick) / <=4 (thorough), state cap 400 / 4000", Share: 2, Serial: true,
 				Run: runHist, Eval: evalHist},
 			{Name: "long-history", Space: "one linear history of 700 (quick) / 6000 (thorough) calls cycling the 68 short operations in a rotating order; every result compared with the fresh-process reference", Share: 1, Serial: true,
 				Run: func(w *fw.W) {
